@@ -27,6 +27,19 @@ import (
 // PREPARE returns a new id) -> UNPREPARED on EXECUTE and BATCH; the caller's context is
 // cancelled; parks on the prepareStatement and exec yield points.
 //
+// A statement's meaning may change (allowMeta runs): a node describes a statement in one of
+// four versions (prepStmt.bindsOf / resultOf: int <-> bigint bind markers with an unchanged
+// marker count, int <-> bigint result columns, an added result column). The version and the
+// id change when the statement is prepared again (per-key plan drawn up front: keep or forget
+// the older ids; this is also how two hosts come to describe one text differently) and when
+// an "alter:" fault fires (the node forgets the statement's ids: ALTER TABLE, or plain
+// eviction with unchanged metadata). An id spells out its version: "n1/ks1/S2/g3/v2.1"
+// (version 2, first change of that key). Callers bind plain Go ints, which the driver
+// marshals as int or bigint according to the metadata it holds.
+// Multi-statement batches (kind multi-batch) hold every batchable statement of the run
+// (up to 5 distinct ones, more than MaxPreparedStmts 1/2/3), so a restart makes the node
+// disown all of them and name one per UNPREPARED answer.
+//
 // Oracle clauses (signature C14/...):
 //   a  foreign-prepared-id, values-do-not-match-statement, executed-with-undelivered-id,
 //      statement-sent-unprepared: what arrives at a node carries an id this node issued for
@@ -46,6 +59,11 @@ import (
 //   e  cache-exceeds-size at every quiescence
 //   f  wrong-arity-sent (+ :batch-entry-without-values)
 //   g  misrouted, wrong-queryinfo; unexpected-outcome, caller-never-returned, panic-in-caller
+//   h  values-not-for-the-id-sent: every EXECUTE / prepared BATCH entry carries, byte for byte,
+//      the caller's values encoded for the bind metadata of THE ID IT CARRIES (4 bytes for an
+//      int marker, 8 for a bigint one); row-not-decoded-for-the-id: the row the caller sees
+//      is the row the node sent, read with the result metadata of the id the EXECUTE carried
+//      (column names, types, values)
 
 func init() {
 	register(&Scenario{
@@ -54,7 +72,7 @@ func init() {
 		Run:        runPrep,
 		Real:       []string{"gocql Session/queryExecutor/pool/Conn.prepareStatement/executeQuery/executeBatch, preparedLRU + internal/lru, framer, marshalling of bound values (real code)", "Go runtime scheduler, channels, timers (fake clock)"},
 		Stub:       []string{"Cassandra nodes with their own prepared-statement tables (independent state machine + cqlspec codec)", "TCP (simnet)", "clock (testing/synctest)", "host selection: a trivial policy that sends each operation to the host the workload chose (random host ids make the stock policies' order irreproducible without a control connection)"},
-		Rule:       "one run = one seeded schedule of 2-6 callers x 2-4 operations (query / Bind query / batch of 1-3 entries / wrong-arity query or batch) over 1-3 statements, 1-2 nodes x 1-2 connections, protocol 3/4/5, session keyspace none/ks1/ks2, cache size 1000/1/2/3, with tape-chosen reply order and lateness, PREPARE failures (error, silence, connection loss), node restarts, caller cancellations and yield-point parks; distinct = distinct canonical-log fingerprint; non-trivial = at least one PREPARE was shared by two callers, failed, or was repeated after UNPREPARED/eviction and at least one operation completed",
+		Rule:       "one run = one seeded schedule of 2-6 callers x 2-4 operations (query / Bind query / batch of 1-3 entries / multi-statement batch / wrong-arity query or batch) over 1-6 statements (multi-batch = every batchable statement in one batch), 1-2 nodes x 1-2 connections, protocol 3/4/5, session keyspace none/ks1/ks2, cache size 1000/1/2/3, skip-metadata on/off, with tape-chosen reply order and lateness, PREPARE failures (error, silence, connection loss), node restarts, statements altered or evicted on a node (other bind/result types, other id), caller cancellations and yield-point parks; distinct = distinct canonical-log fingerprint; non-trivial = at least one PREPARE was shared by two callers, failed, or was repeated after UNPREPARED/eviction and at least one operation completed",
 	})
 }
 
@@ -90,20 +108,92 @@ func prepStatements() []*prepStmt {
 		{name: "S4", text: "UPDATE t SET a = ? WHERE k = ? IF c = 'x  y'", binds: []prepCol{{"a", cqlspec.TInt}, {"k", cqlspec.TVarchar}}, tokIdx: 1, pk: []uint16{1}},
 		{name: "S5", text: "UPDATE t SET a = ? WHERE k = ? IF c = 'x y'", binds: []prepCol{{"a", cqlspec.TInt}, {"k", cqlspec.TVarchar}}, tokIdx: 1, pk: []uint16{1}},
 		{name: "S6", text: `INSERT INTO t (k, a, "B") VALUES (?, ?, ?)`, binds: []prepCol{{"k", cqlspec.TVarchar}, {"a", cqlspec.TInt}, {"B", cqlspec.TBigint}}, tokIdx: 0, pk: []uint16{0}},
+		// a statement with numeric bind markers AND numeric result columns
+		{name: "S7", text: "SELECT v, a FROM t WHERE k = ? AND a = ? AND b = ?", binds: []prepCol{{"k", cqlspec.TVarchar}, {"a", cqlspec.TInt}, {"b", cqlspec.TBigint}}, tokIdx: 0, pk: []uint16{0},
+			result: []prepCol{{"v", cqlspec.TVarchar}, {"a", cqlspec.TInt}}},
 	}
 }
 
-// args builds correct values for the statement: the text column carries the token.
+// prepVersions is the number of ways a node may describe one statement text. Version 0 is
+// the declaration above. The number of bind markers never changes (the caller's values stay
+// the right count), only their types do; a statement with a result keeps having one.
+//
+//	1: every int is a bigint (markers and result columns); the result gains a column w int
+//	2: markers: int <-> bigint swapped; result: declared types plus a column w bigint
+//	3: markers: every bigint is an int; result: declared plus w int
+const prepVersions = 4
+
+func (st *prepStmt) bindsOf(ver int) []prepCol {
+	out := append([]prepCol(nil), st.binds...)
+	for i := range out {
+		t := out[i].typ
+		switch {
+		case ver == 1 && t == cqlspec.TInt, ver == 2 && t == cqlspec.TInt:
+			out[i].typ = cqlspec.TBigint
+		case ver == 2 && t == cqlspec.TBigint, ver == 3 && t == cqlspec.TBigint:
+			out[i].typ = cqlspec.TInt
+		}
+	}
+	return out
+}
+
+func (st *prepStmt) resultOf(ver int) []prepCol {
+	if len(st.result) == 0 || ver == 0 {
+		return st.result
+	}
+	out := append([]prepCol(nil), st.result...)
+	if ver == 1 {
+		for i := range out {
+			if out[i].typ == cqlspec.TInt {
+				out[i].typ = cqlspec.TBigint
+			}
+		}
+	}
+	w := prepCol{"w", cqlspec.TInt}
+	if ver == 2 {
+		w.typ = cqlspec.TBigint
+	}
+	return append(out, w)
+}
+
+// prepEncode is the wire form of a caller's value for a bind marker of the given type.
+func prepEncode(typ uint16, v interface{}) []byte {
+	switch x := v.(type) {
+	case string:
+		if typ == cqlspec.TVarchar {
+			return cqlspec.EncText(x)
+		}
+	case int:
+		switch typ {
+		case cqlspec.TInt:
+			return cqlspec.EncInt(int32(x))
+		case cqlspec.TBigint:
+			return cqlspec.EncBigint(int64(x))
+		}
+	}
+	return nil
+}
+
+// prepRowText is the canonical text of one row: name:type=value of every column in order.
+func prepRowText(names []string, types []int, vals []interface{}) string {
+	var parts []string
+	for i := range names {
+		parts = append(parts, fmt.Sprintf("%s:%#x=%v", names[i], types[i], vals[i]))
+	}
+	return strings.Join(parts, ";")
+}
+
+// args builds correct values for the statement: the text column carries the token, the
+// numeric markers get plain Go ints (the driver marshals an int as 4 or 8 bytes according
+// to the bind metadata it holds, so the same values fit every version of the statement).
 func (st *prepStmt) args(tok string, n int) []interface{} {
 	var out []interface{}
-	for _, c := range st.binds {
+	for i, c := range st.binds {
 		switch c.typ {
 		case cqlspec.TVarchar:
 			out = append(out, tok)
-		case cqlspec.TInt:
-			out = append(out, n)
-		case cqlspec.TBigint:
-			out = append(out, int64(n)*1000003)
+		default:
+			out = append(out, n*8+i)
 		}
 	}
 	return out
@@ -115,11 +205,13 @@ const (
 	prepKindBatch
 	prepKindWrongQuery
 	prepKindWrongBatch
+	prepKindMultiBatch // a batch that holds every batchable statement of the run
 )
 
 type prepEntry struct {
 	op      *prepOp
 	tok     string
+	num     int
 	st      *prepStmt
 	args    []interface{} // what the caller passes (possibly of the wrong count)
 	wrong   bool
@@ -146,6 +238,7 @@ type prepOp struct {
 	unprepID map[string]int // prepared id -> UNPREPARED answers that named it
 	unprep   int            // UNPREPARED answers produced for it
 	success  bool           // a node produced a success answer for it
+	rows     []string       // canonical text of the rows the nodes sent for it
 	failedOn []*prepReq     // failed PREPAREs it was waiting on (see clause c)
 	cancel   context.CancelFunc
 	canceled bool
@@ -171,12 +264,17 @@ type prepID struct {
 	st        *prepStmt
 	gen       int
 	okReplies int // PREPARED answers that carried it
+	key       *prepKey
+	ver       int       // the version of the statement it was issued for
+	binds     []prepCol // = st.bindsOf(ver)
+	result    []prepCol // = st.resultOf(ver)
 }
 
 type prepNodeState struct {
 	host    *node.Host
 	gen     int
 	current map[string]bool // ids prepared since the last restart
+	forgets int             // times it forgot ids (restarts, altered / evicted statements)
 }
 
 // prepKey is the cache key as the property defines it: host + keyspace + statement.
@@ -187,6 +285,9 @@ type prepKey struct {
 	window   []*prepReq // PREPAREs since the last event that legitimately forces a new one
 	gens     map[int]bool
 	failures int
+	ver      int   // how the node describes the statement now
+	epoch    int   // changes of the key so far (part of the id)
+	metaPlan []int // per successive PREPARE: 0 = nothing changes, else 2*delta + forget
 }
 
 const (
@@ -259,6 +360,9 @@ type prepWorld struct {
 	maxRestarts int
 	allowClose  bool
 	allowCancel bool
+	allowMeta   bool
+	maxAlters   int
+	alters      int
 
 	finalPrepares int // PREPAREs received during the final phase
 	timeouts      []prepTimeout
@@ -408,6 +512,20 @@ func runPrep(e *Env) {
 	}
 	allowCancel := !e.NoFaults && tp.Chance(1, 3)
 	coalesce := []time.Duration{0, 0, 200 * time.Microsecond}[tp.Next(3)]
+	// newer dimensions (0 = the run as it was before they existed)
+	nStmts += tp.Next(4)                // up to 6 of the 7 statements
+	noSkipMeta := tp.Next(4) == 3       // results carry their metadata
+	allowMeta, maxAlters := false, 0    // statements whose meaning changes
+	if !e.NoFaults {
+		allowMeta = tp.Chance(1, 2)
+		if allowMeta {
+			maxAlters = tp.Next(4)
+		}
+		maxRestarts += tp.Next(3) // nodes that forget everything more often
+	}
+	e.Note("allowMeta", allowMeta)
+	e.Note("maxAlters", maxAlters)
+	e.Note("noSkipMeta", noSkipMeta)
 	e.Note("allowCancel", allowCancel)
 	e.Note("coalesce", coalesce.String())
 	e.Note("maxRestarts", maxRestarts)
@@ -428,6 +546,7 @@ func runPrep(e *Env) {
 		e: e, k: k, cl: cl,
 		proto: proto, ks: ks, timeout: timeout, maxPrepared: maxPrepared,
 		faultsOn: !e.NoFaults, maxRestarts: maxRestarts, allowClose: allowClose, allowCancel: allowCancel,
+		allowMeta: allowMeta, maxAlters: maxAlters,
 		byText: map[string]*prepStmt{}, byName: map[string]*prepStmt{},
 		nodes: map[string]*prepNodeState{}, issued: map[string]*prepID{}, keys: map[string]*prepKey{},
 		entries: map[string]*prepEntry{}, fates: map[string][]int{}, flights: map[string]int{},
@@ -489,14 +608,36 @@ func runPrep(e *Env) {
 		}
 		w.fates[key.name] = fs
 	}
+	// what the successive PREPAREs of every key do to the statement's meaning, drawn up front
+	// for the same reason: 0 = described as before; else the node describes it in another
+	// version from now on, hands out a different id and keeps (0) or forgets (1) the older
+	// ids of the key. The first PREPARE of a key may already differ from version 0: that is
+	// two hosts describing one text differently.
+	if allowMeta {
+		metaBudget := 4
+		for _, key := range w.keyList {
+			for i := 0; i < 5; i++ {
+				d := tp.Weighted([]int{9, 1, 1, 1})
+				code := 0
+				if d > 0 && metaBudget > 0 {
+					metaBudget--
+					code = 2*d + tp.Next(2)
+				}
+				key.metaPlan = append(key.metaPlan, code)
+			}
+		}
+	}
 
 	// ---- operation plan (all draws on the root, before anything runs) ----
 	plan := make([][]*prepOp, nTasks)
 	for ti := 0; ti < nTasks; ti++ {
 		for oi := 0; oi < nOps; oi++ {
 			op := &prepOp{id: fmt.Sprintf("ptok-%d-%d", ti, oi), sends: map[string]int{}, unprepID: map[string]int{}}
-			op.kind = tp.Weighted([]int{8, 3, 5, 2, 1})
+			op.kind = tp.Weighted([]int{8, 3, 5, 2, 1, 3})
 			op.host = addrs[tp.Next(len(addrs))]
+			if op.kind == prepKindMultiBatch && len(batchable) < 2 {
+				op.kind = prepKindBatch
+			}
 			if (op.kind == prepKindBatch || op.kind == prepKindWrongBatch) && len(batchable) == 0 {
 				op.kind = prepKindQuery
 			}
@@ -505,14 +646,27 @@ func runPrep(e *Env) {
 			case prepKindQuery, prepKindBind, prepKindWrongQuery:
 				st := w.stmts[tp.Next(len(w.stmts))]
 				tok := op.id + "-0"
-				en := &prepEntry{op: op, tok: tok, st: st, args: st.args(tok, n), useBind: op.kind == prepKindBind}
+				en := &prepEntry{op: op, tok: tok, num: n, st: st, args: st.args(tok, n), useBind: op.kind == prepKindBind}
 				op.entries = []*prepEntry{en}
+			case prepKindMultiBatch:
+				// every batchable statement once, starting anywhere, then 0-2 repeats
+				start := tp.Next(len(batchable))
+				ne := len(batchable) + tp.Next(3)
+				for ei := 0; ei < ne; ei++ {
+					st := batchable[(start+ei)%len(batchable)]
+					if ei >= len(batchable) {
+						st = batchable[tp.Next(len(batchable))]
+					}
+					tok := fmt.Sprintf("%s-%d", op.id, ei)
+					en := &prepEntry{op: op, tok: tok, num: n + ei, st: st, args: st.args(tok, n+ei), useBind: tp.Chance(1, 4)}
+					op.entries = append(op.entries, en)
+				}
 			default:
 				ne := 1 + tp.Next(3)
 				for ei := 0; ei < ne; ei++ {
 					st := batchable[tp.Next(len(batchable))]
 					tok := fmt.Sprintf("%s-%d", op.id, ei)
-					en := &prepEntry{op: op, tok: tok, st: st, args: st.args(tok, n+ei), useBind: tp.Chance(1, 4)}
+					en := &prepEntry{op: op, tok: tok, num: n + ei, st: st, args: st.args(tok, n+ei), useBind: tp.Chance(1, 4)}
 					op.entries = append(op.entries, en)
 				}
 			}
@@ -555,6 +709,7 @@ func runPrep(e *Env) {
 	cfg.WriteCoalesceWaitTime = coalesce
 	cfg.Keyspace = ks
 	cfg.MaxPreparedStmts = maxPrepared
+	cfg.DisableSkipMetadata = noSkipMeta
 	cfg.Dialer = &prepDialer{inner: cl.Net, hosts: addrs, perHost: map[string]int{}, total: nHosts * numConns, wake: make(chan struct{})}
 	pol := &prepPolicy{hosts: map[string]*gocql.HostInfo{}}
 	cfg.PoolConfig.HostSelectionPolicy = pol
@@ -729,7 +884,33 @@ func (w *prepWorld) perform(sess *gocql.Session, op *prepOp) {
 		}
 		q = q.WithContext(ctx)
 		if len(en.st.result) > 0 {
-			err = q.Scan(&got)
+			// read the row as the driver describes it: whatever columns and types its
+			// metadata names (the caller cannot know which version the node is at)
+			iter := q.Iter()
+			cols := iter.Columns()
+			m := map[string]interface{}{}
+			if iter.MapScan(m) {
+				var names []string
+				var types []int
+				var vals []interface{}
+				for _, c := range cols {
+					names = append(names, c.Name)
+					t := -1
+					if c.TypeInfo != nil {
+						t = int(c.TypeInfo.Type())
+					}
+					types = append(types, t)
+					vals = append(vals, m[c.Name])
+				}
+				got = prepRowText(names, types, vals)
+				if got == "" {
+					got = "(row without columns)"
+				}
+			}
+			err = iter.Close()
+			if err == nil && got == "" {
+				err = gocql.ErrNotFound
+			}
 		} else {
 			err = q.Exec()
 		}
@@ -788,11 +969,12 @@ func (w *prepWorld) checkQueryInfo(en *prepEntry, qi *gocql.QueryInfo) string {
 		}
 		return ""
 	}
-	if m := cmp("Args", qi.Args, en.st.binds); m != "" {
-		return m
+	// the description must be the one the node gave together with THAT id
+	if m := cmp("Args", qi.Args, pid.binds); m != "" {
+		return fmt.Sprintf("id %q (version %d): %s", qi.Id, pid.ver, m)
 	}
-	if m := cmp("Rval", qi.Rval, en.st.result); m != "" {
-		return m
+	if m := cmp("Rval", qi.Rval, pid.result); m != "" {
+		return fmt.Sprintf("id %q (version %d): %s", qi.Id, pid.ver, m)
 	}
 	var wantPK []int
 	if w.proto >= 4 {
@@ -820,6 +1002,13 @@ func (w *prepWorld) checkOutcome(op *prepOp) {
 	w.mu.Lock()
 	err, got := op.err, op.got
 	success, unprep := op.success, op.unprep
+	rows := append([]string(nil), op.rows...)
+	named := map[string]bool{}
+	for id := range op.unprepID {
+		if pid := w.issued[id]; pid != nil {
+			named[pid.st.name] = true
+		}
+	}
 	failedOn := append([]*prepReq(nil), op.failedOn...)
 	w.mu.Unlock()
 	cls := ErrClass(err)
@@ -838,9 +1027,21 @@ func (w *prepWorld) checkOutcome(op *prepOp) {
 			k.Violate("C14", "C14/misrouted", "operation %s (%s) returned success but no node ever answered it with a result", op.id, op.describe())
 			return
 		}
-		if len(op.entries[0].st.result) > 0 && op.kind != prepKindBatch && !strings.HasPrefix(got, op.entries[0].tok+"/") {
-			k.Violate("C14", "C14/misrouted", "caller of %s received the row %q", op.entries[0].tok, got)
-			return
+		if len(op.entries) == 1 && len(op.entries[0].st.result) > 0 {
+			seen := false
+			for _, r := range rows {
+				if r == got {
+					seen = true
+				}
+			}
+			if !seen && !strings.Contains(got, "="+op.entries[0].tok+"/") {
+				k.Violate("C14", "C14/misrouted", "caller of %s received the row %q", op.entries[0].tok, got)
+				return
+			}
+			if !seen {
+				k.Violate("C14", "C14/row-not-decoded-for-the-id", "caller of %s (statement %s on %s) sees the row %q; the node sent, described by the result metadata of the id each EXECUTE carried: %q", op.entries[0].tok, op.entries[0].st.name, op.host, got, rows)
+				return
+			}
 		}
 		// clause (c): it was waiting on a PREPARE that failed. If the node never forgot
 		// anything, the operation cannot have held an id of its own, so it was waiting on
@@ -848,7 +1049,7 @@ func (w *prepWorld) checkOutcome(op *prepOp) {
 		// id that went stale) it is only wrong if no later PREPARE of the key succeeded.
 		for _, p := range failedOn {
 			w.mu.Lock()
-			neverRestarted := w.nodes[p.key.host].gen == 1
+			neverRestarted := w.nodes[p.key.host].forgets == 0
 			w.mu.Unlock()
 			if neverRestarted {
 				k.Violate("C14", "C14/waiter-succeeded-after-failed-prepare", "operation %s (%s) was waiting on the PREPARE of %s that arrived at step %d (the only one of that key at the time; the node never restarted, nothing could be evicted) and failed at step %d, yet it returned success instead of that failure", op.id, op.describe(), p.key.name, p.arriveStep, p.failedStep)
@@ -861,6 +1062,21 @@ func (w *prepWorld) checkOutcome(op *prepOp) {
 		}
 		if unprep > 0 {
 			k.Probe("recovered-after-unprepared")
+		}
+		if len(op.entries) > 1 {
+			distinct := map[string]bool{}
+			for _, en := range op.entries {
+				distinct[en.st.name] = true
+			}
+			if len(distinct) > w.maxPrepared {
+				k.Probe("batch-statements-outnumber-cache")
+			}
+			if len(named) >= 2 {
+				k.Probe("batch-recovered-after-several-reprepare-rounds")
+				if len(named) == len(distinct) {
+					k.Probe("batch-every-statement-prepared-again")
+				}
+			}
 		}
 		return
 	}
@@ -914,6 +1130,8 @@ func (w *prepWorld) checkOutcome(op *prepOp) {
 			return
 		}
 		k.Violate("C14", "C14/unexpected-outcome", "operation %s (%s) ended with a server error no node sent for it: %v", op.id, op.describe(), err)
+	case strings.Contains(cls, "unmarshal"), strings.Contains(cls, "columns to scan into"):
+		k.Violate("C14", "C14/row-not-decoded-for-the-id", "operation %s (%s) could not read the row the node sent (result metadata of another id?): %v; rows sent: %q", op.id, op.describe(), err, rows)
 	case strings.Contains(cls, "values send got"), strings.Contains(cls, "can not marshal"), strings.Contains(cls, "cannot marshal"):
 		k.Violate("C14", "C14/values-do-not-match-statement", "operation %s (%s) passed correct values for its statement but the driver rejected them (metadata of another statement?): %v", op.id, op.describe(), err)
 	default:
@@ -930,7 +1148,7 @@ func (op *prepOp) describe() string {
 		}
 		parts = append(parts, s)
 	}
-	kind := []string{"query", "bind-query", "batch", "wrong-arity query", "wrong-arity batch"}[op.kind]
+	kind := []string{"query", "bind-query", "batch", "wrong-arity query", "wrong-arity batch", "multi-batch"}[op.kind]
 	return fmt.Sprintf("%s on %s: %s", kind, op.host, strings.Join(parts, ", "))
 }
 
@@ -1074,11 +1292,38 @@ func (w *prepWorld) onPrepare(sc *node.SConn, rec *node.ReqRec) {
 		p.reply = w.cl.Send(sc, rec, &cqlspec.Response{Op: cqlspec.OpResult, Kind: cqlspec.KindVoid}, node.Drop, "NEVER PREPARE "+st.name)
 		return
 	}
+	// does the statement mean something else this time?
+	if len(key.metaPlan) > 0 && !k.Settling() {
+		code := key.metaPlan[0]
+		key.metaPlan = key.metaPlan[1:]
+		if code > 0 && w.faultsOn {
+			key.ver = (key.ver + code/2) % prepVersions
+			key.epoch++
+			k.Fault("prepare.statement-described-differently")
+			if code%2 == 1 {
+				if w.forgetKeyLocked(ns, key) > 0 {
+					k.Probe("prepare-disowns-older-ids")
+				}
+			} else if w.knownIDsLocked(ns, key) > 0 {
+				k.Probe("two-ids-of-one-statement-known")
+			}
+			k.Rec("meta %s ver=%d epoch=%d forget=%d", key.name, key.ver, key.epoch, code%2)
+		}
+	}
 	id := fmt.Sprintf("%s/%s/%s/g%d", sc.Host.Nonce, ks, st.name, ns.gen)
+	if key.epoch > 0 {
+		id += fmt.Sprintf("/v%d.%d", key.ver, key.epoch)
+	}
 	pid := w.issued[id]
 	if pid == nil {
-		pid = &prepID{id: id, node: sc.Host.Addr, ks: ks, st: st, gen: ns.gen}
+		pid = &prepID{id: id, node: sc.Host.Addr, ks: ks, st: st, gen: ns.gen, key: key, ver: key.ver, binds: st.bindsOf(key.ver), result: st.resultOf(key.ver)}
 		w.issued[id] = pid
+		for _, other := range w.issued {
+			if other.st == st && other.ver != pid.ver {
+				k.Probe("statement-described-in-two-versions")
+				break
+			}
+		}
 	}
 	pid.okReplies++
 	ns.current[id] = true
@@ -1090,13 +1335,13 @@ func (w *prepWorld) onPrepare(sc *node.SConn, rec *node.ReqRec) {
 		}
 	}
 	key.gens[ns.gen] = true
-	pm := &cqlspec.PreparedMeta{GlobalSpec: true, Columns: w.colSpecs(st.binds)}
+	pm := &cqlspec.PreparedMeta{GlobalSpec: true, Columns: w.colSpecs(pid.binds)}
 	if rq.Header.Version >= 4 {
 		pm.PKIndices = st.pk
 	}
 	rm := &cqlspec.RowsMeta{}
-	if len(st.result) > 0 {
-		rm = &cqlspec.RowsMeta{GlobalSpec: true, Columns: w.colSpecs(st.result)}
+	if len(pid.result) > 0 {
+		rm = &cqlspec.RowsMeta{GlobalSpec: true, Columns: w.colSpecs(pid.result)}
 	}
 	nf := node.Hold
 	if fate == prepFateAuto {
@@ -1161,6 +1406,31 @@ func (w *prepWorld) touchKeyLocked(key *prepKey) {
 	key.window = nil
 }
 
+// forgetKeyLocked: the node disowns every id it holds for the key (the table was altered,
+// the statement was evicted). It returns how many there were.
+func (w *prepWorld) forgetKeyLocked(ns *prepNodeState, key *prepKey) int {
+	n := 0
+	for id := range ns.current {
+		if pid := w.issued[id]; pid != nil && pid.key == key {
+			delete(ns.current, id)
+			n++
+		}
+	}
+	ns.forgets++
+	w.touchKeyLocked(key)
+	return n
+}
+
+func (w *prepWorld) knownIDsLocked(ns *prepNodeState, key *prepKey) int {
+	n := 0
+	for id := range ns.current {
+		if pid := w.issued[id]; pid != nil && pid.key == key {
+			n++
+		}
+	}
+	return n
+}
+
 // checkIDLocked is clause (a) for one EXECUTE or one prepared BATCH entry. It returns the
 // entry the values name (nil if none), the id's record, and whether the node knows the id.
 func (w *prepWorld) checkIDLocked(sc *node.SConn, what string, ks string, idb []byte, vals []cqlspec.Value) (*prepEntry, *prepID, bool, bool) {
@@ -1205,12 +1475,13 @@ func (w *prepWorld) checkIDLocked(sc *node.SConn, what string, ks string, idb []
 		k.Violate("C14", "C14/misrouted", "conn %s: %s for %s arrived at %s but its caller addressed %s", sc.C.Name, what, en.tok, sc.Host.Addr, en.op.host)
 		return en, pid, false, false
 	}
-	// values must be the statement's: count and types
+	// values must be the statement's: count and types, as the node described them when it
+	// handed out THIS id
 	bad := ""
-	if len(vals) != len(pid.st.binds) {
-		bad = fmt.Sprintf("%d values for %d bind markers", len(vals), len(pid.st.binds))
+	if len(vals) != len(pid.binds) {
+		bad = fmt.Sprintf("%d values for %d bind markers", len(vals), len(pid.binds))
 	} else {
-		for i, c := range pid.st.binds {
+		for i, c := range pid.binds {
 			v := vals[i]
 			if v.Null || v.Unset {
 				bad = fmt.Sprintf("value %d is null/unset", i)
@@ -1235,8 +1506,31 @@ func (w *prepWorld) checkIDLocked(sc *node.SConn, what string, ks string, idb []
 			}
 		}
 	}
+	// clause (h): byte for byte the caller's values in the encoding of the id's bind metadata
+	if en != nil && len(vals) == len(pid.binds) && len(en.args) == len(pid.binds) {
+		fits := func(binds []prepCol) (int, bool) {
+			for i, c := range binds {
+				if vals[i].Null || vals[i].Unset || string(vals[i].Bytes) != string(prepEncode(c.typ, en.args[i])) {
+					return i, false
+				}
+			}
+			return -1, true
+		}
+		if i, ok := fits(pid.binds); !ok {
+			for ver := 0; ver < prepVersions; ver++ {
+				if _, ok2 := fits(pid.st.bindsOf(ver)); ok2 && ver != pid.ver {
+					k.Violate("C14", "C14/values-not-for-the-id-sent", "conn %s: %s for %s carries id %q, which the node handed out describing statement %s in version %d (marker %d %s is of type %#x), but the values are encoded for version %d of the statement (value %d has %d bytes): values marshalled with the bind metadata of another PREPARE of the same text",
+						sc.C.Name, what, en.tok, id, pid.st.name, pid.ver, i, pid.binds[i].name, pid.binds[i].typ, ver, i, len(vals[i].Bytes))
+					return en, pid, false, false
+				}
+			}
+			if bad == "" {
+				bad = fmt.Sprintf("value %d (%s) is % x, the caller bound %v", i, pid.binds[i].name, vals[i].Bytes, en.args[i])
+			}
+		}
+	}
 	if bad != "" {
-		k.Violate("C14", "C14/values-do-not-match-statement", "conn %s: %s with id %q (statement %s): %s", sc.C.Name, what, id, pid.st.name, bad)
+		k.Violate("C14", "C14/values-do-not-match-statement", "conn %s: %s with id %q (statement %s, version %d): %s", sc.C.Name, what, id, pid.st.name, pid.ver, bad)
 		return en, pid, false, false
 	}
 	if en == nil {
@@ -1254,6 +1548,20 @@ func (w *prepWorld) checkIDLocked(sc *node.SConn, what string, ks string, idb []
 	if !seen {
 		k.Violate("C14", "C14/executed-with-undelivered-id", "conn %s: %s for %s carries id %q although no PREPARED answer with that id has been delivered yet", sc.C.Name, what, en.tok, id)
 		return en, pid, false, false
+	}
+	// probe: the operation was told that an id of this key is unknown and now comes back
+	// with an id whose bind markers / result columns are described differently
+	for id0 := range en.op.unprepID {
+		pid0 := w.issued[id0]
+		if pid0 == nil || pid0.key != pid.key || pid0 == pid {
+			continue
+		}
+		if fmt.Sprint(pid0.binds) != fmt.Sprint(pid.binds) {
+			k.Probe("resent-after-unprepared-with-other-bind-types")
+		}
+		if fmt.Sprint(pid0.result) != fmt.Sprint(pid.result) {
+			k.Probe("resent-after-unprepared-with-other-result-columns")
+		}
 	}
 	return en, pid, w.nodes[sc.Host.Addr].current[id], true
 }
@@ -1315,16 +1623,42 @@ func (w *prepWorld) onExecute(sc *node.SConn, rec *node.ReqRec) {
 		return
 	}
 	op.success = true
-	if len(pid.st.result) == 0 {
+	if len(pid.result) == 0 {
 		w.cl.Send(sc, rec, &cqlspec.Response{Op: cqlspec.OpResult, Kind: cqlspec.KindVoid}, node.Hold, "VOID "+en.tok)
 		return
 	}
-	meta := &cqlspec.RowsMeta{GlobalSpec: true, Columns: w.colSpecs(pid.st.result)}
+	// the row as the id's result metadata describes it
+	meta := &cqlspec.RowsMeta{GlobalSpec: true, Columns: w.colSpecs(pid.result)}
 	if rq.Params.SkipMetadata {
-		meta = &cqlspec.RowsMeta{NoMetadata: true, ColumnCount: len(pid.st.result)}
+		meta = &cqlspec.RowsMeta{NoMetadata: true, ColumnCount: len(pid.result)}
+		if pid.ver != 0 {
+			w.k.Probe("row-without-metadata-for-changed-statement")
+		}
 	}
-	row := [][]cqlspec.Cell{{{Bytes: cqlspec.EncText(en.tok + "/" + sc.Host.Nonce + "/" + pid.id)}}}
-	w.cl.Send(sc, rec, &cqlspec.Response{Op: cqlspec.OpResult, Kind: cqlspec.KindRows, Rows: meta, RowData: row}, node.Hold, "ROWS "+en.tok)
+	var cells []cqlspec.Cell
+	var names []string
+	var types []int
+	var vals []interface{}
+	for j, c := range pid.result {
+		names = append(names, c.name)
+		types = append(types, int(c.typ))
+		switch c.typ {
+		case cqlspec.TVarchar:
+			s := en.tok + "/" + sc.Host.Nonce + "/" + pid.id
+			cells = append(cells, cqlspec.Cell{Bytes: cqlspec.EncText(s)})
+			vals = append(vals, s)
+		case cqlspec.TInt:
+			v := en.num*8 + j + 1
+			cells = append(cells, cqlspec.Cell{Bytes: cqlspec.EncInt(int32(v))})
+			vals = append(vals, v)
+		case cqlspec.TBigint:
+			v := int64(en.num*8+j+1) * 1000003
+			cells = append(cells, cqlspec.Cell{Bytes: cqlspec.EncBigint(v)})
+			vals = append(vals, v)
+		}
+	}
+	op.rows = append(op.rows, prepRowText(names, types, vals))
+	w.cl.Send(sc, rec, &cqlspec.Response{Op: cqlspec.OpResult, Kind: cqlspec.KindRows, Rows: meta, RowData: [][]cqlspec.Cell{cells}}, node.Hold, "ROWS "+en.tok)
 }
 
 func (w *prepWorld) onBatch(sc *node.SConn, rec *node.ReqRec) {
@@ -1495,6 +1829,7 @@ func (w *prepWorld) faultActions() []kernel.Action {
 				k.Fault("node.restart-forgets-prepared")
 				w.restarts++
 				ns.gen++
+				ns.forgets++
 				ns.current = map[string]bool{}
 				for _, key := range w.keyList {
 					if key.host == ns.host.Addr {
@@ -1502,6 +1837,33 @@ func (w *prepWorld) faultActions() []kernel.Action {
 					}
 				}
 				k.Rec("restart %s gen=%d", ns.host.Addr, ns.gen)
+			}})
+		}
+	}
+	if w.allowMeta && w.alters < w.maxAlters {
+		// the node forgets the ids of ONE statement: its table was altered (the next PREPARE
+		// describes it in another version) or the statement was evicted (same description);
+		// either way the next PREPARE hands out a different id
+		for _, key := range w.keyList {
+			key := key
+			ns := w.nodes[key.host]
+			if w.knownIDsLocked(ns, key) == 0 {
+				continue
+			}
+			acts = append(acts, kernel.Action{Key: "alter:" + key.name, Rank: 5, Weight: 2, Do: func() {
+				d := k.Tape.Next(prepVersions) // 0 = evicted, described as before
+				w.mu.Lock()
+				defer w.mu.Unlock()
+				w.alters++
+				key.ver = (key.ver + d) % prepVersions
+				key.epoch++
+				n := w.forgetKeyLocked(ns, key)
+				if d == 0 {
+					k.Fault("node.statement-evicted")
+				} else {
+					k.Fault("node.statement-altered")
+				}
+				k.Rec("alter %s ver=%d epoch=%d forgot=%d", key.name, key.ver, key.epoch, n)
 			}})
 		}
 	}
@@ -1556,7 +1918,7 @@ func (w *prepWorld) finalPhase(sess *gocql.Session, serve func()) {
 	for i, key := range w.keyList {
 		op := &prepOp{id: fmt.Sprintf("ptok-99-%d", i), kind: prepKindQuery, host: key.host, sends: map[string]int{}, unprepID: map[string]int{}}
 		tok := op.id + "-0"
-		en := &prepEntry{op: op, tok: tok, st: key.st, args: key.st.args(tok, 9900+i)}
+		en := &prepEntry{op: op, tok: tok, num: 9900 + i, st: key.st, args: key.st.args(tok, 9900+i)}
 		op.entries = []*prepEntry{en}
 		w.entries[tok] = en
 		w.ops = append(w.ops, op)
